@@ -64,6 +64,9 @@ pub enum Pred {
 #[derive(Clone, Copy, Debug, Serialize, Deserialize, PartialEq, Eq, Hash)]
 pub enum Step {
     StartGet { zero_wait: bool, pause: Option<u8> },
+    /// timeout_get() with a recycle timeout on this runtime-less pool: must be refused with
+    /// NoRuntimeSpecified before anything is touched
+    GetNoRuntime { zero_wait: bool },
     Poll { g: u8, pause: Option<u8> },
     PollWoken { pause: Option<u8> },
     Cancel { g: u8, pause: Option<u8> },
@@ -156,6 +159,7 @@ impl Step {
             Step::Status => "Status",
             Step::Resume { .. } => "Resume",
             Step::DropPool => "DropPool",
+            Step::GetNoRuntime { .. } => "GetNoRuntime",
             Step::Contend { .. } => "Contend",
             Step::StatusAt { .. } => "StatusAt",
         }
